@@ -139,6 +139,8 @@ def impl_char_classes(cp):
 # one work item = one document with all its positions (runs in a worker process)
 def _impl_job(job):
     kind, src, oname, positions = job
+    if kind == 'attrs':
+        return impl_attributes(src, oname)
     opts = OPT_SETS[oname] if isinstance(oname, str) else oname
     if kind == 'scan':
         return impl_scan(src, opts)
@@ -148,8 +150,6 @@ def _impl_job(job):
         return [impl_outward(src, p, opts) for p in positions]
     if kind == 'inward':
         return [impl_inward(src, p, opts) for p in positions]
-    if kind == 'attrs':
-        return impl_attributes(src, oname)
     if kind == 'open_tag':
         return [impl_open_tag(src, p) for p in positions]
     if kind == 'select_next':
